@@ -23,7 +23,9 @@ if [ "$MODE" = "--replay" ] && head -n 1 "$ARG" 2>/dev/null | grep -q "^apiprobe
 fi
 if [ "$PROP" = "C20" ]; then
   if [ "$MODE" != "--replay" ]; then "$VERIF_DIR/tools/api_probe.sh" "$PROP"; rc=$?; [ $rc -ne 0 ] && exit $rc; fi
-  exec "$VERIF_DIR/tools/run_c20.sh" "$MODE" "$ARG"
+  "$VERIF_DIR/tools/run_c20.sh" "$MODE" "$ARG"; rc=$?
+  [ $rc -eq 0 ] && [ "$MODE" != "--replay" ] && python3 "$VERIF_DIR/tools/merge_probes.py" "$VERIF_DIR/evidence/C20.json" "$VERIF_DIR/work/apiprobe-C20.json"
+  exit $rc
 fi
 
 # C05 also covers the optional serde feature (deserializing is an operation like any other):
@@ -104,6 +106,7 @@ if true; then
 fi
 run "$REL" VERIF_AUX_EVIDENCE="$AUX"; rc=$?
 [ $rc -ne 0 ] && exit $rc
+python3 "$VERIF_DIR/tools/merge_probes.py" "$VERIF_DIR/evidence/$PROP.json" "$VERIF_DIR/work/apiprobe-$PROP.json" $([ "$PROP" = "C06" ] && echo "$VERIF_DIR/work/nostd-probe.json")
 if [ "$MODE" = "thorough" ] && [ -x "$VERIF_DIR/tools/thorough_extra.sh" ]; then
   "$VERIF_DIR/tools/thorough_extra.sh" "$PROP"; rc=$?
   [ $rc -ne 0 ] && exit $rc
